@@ -23,6 +23,8 @@ pub struct StepOpts {
     pub tick_budget: u64,
     /// yield the baton when the step's tick counter reaches this value
     pub preempt_at: Option<u64>,
+    /// yield the baton at the first tick of this site (e.g. a "phase: ..." boundary)
+    pub preempt_site: Option<&'static str>,
     /// legal entropy faults injected on this node for this step
     pub eintr: i32,
     pub short_reads: i32,
@@ -70,6 +72,7 @@ thread_local! {
     static ALL_TICKS: Cell<u64> = const { Cell::new(0) };
     static TICK_BUDGET: Cell<u64> = const { Cell::new(0) };
     static PREEMPT_AT: Cell<u64> = const { Cell::new(u64::MAX) };
+    static PREEMPT_SITE: Cell<Option<&'static str>> = const { Cell::new(None) };
     static PREEMPTED: Cell<u32> = const { Cell::new(0) };
     static QUIET: Cell<bool> = const { Cell::new(false) };
     static YIELD: RefCell<Option<(Sender<Reply>, Receiver<()>)>> = const { RefCell::new(None) };
@@ -118,7 +121,14 @@ pub fn on_tick(site: &'static str) {
         }
     }
     let t = at;
-    if PREEMPT_AT.with(|c| c.get()) == t {
+    let at_site = PREEMPT_SITE.with(|c| match c.get() {
+        Some(s) if s == site => {
+            c.set(None);
+            true
+        }
+        _ => false,
+    });
+    if at_site || PREEMPT_AT.with(|c| c.get()) == t {
         YIELD.with(|y| {
             if let Some((tx, rx)) = y.borrow().as_ref() {
                 PREEMPTED.with(|c| c.set(c.get() + 1));
@@ -127,6 +137,12 @@ pub fn on_tick(site: &'static str) {
             }
         });
     }
+}
+
+/// real time after which a node that holds the baton is taken to be blocked (ZKSIM_BLOCK_MS)
+fn blocked_after() -> std::time::Duration {
+    static D: OnceLock<u64> = OnceLock::new();
+    std::time::Duration::from_millis(*D.get_or_init(|| std::env::var("ZKSIM_BLOCK_MS").ok().and_then(|v| v.parse().ok()).unwrap_or(8000)))
 }
 
 static NODE_INIT: OnceLock<fn()> = OnceLock::new();
@@ -175,6 +191,7 @@ fn node_main(seed: [u64; 4], cmd_rx: Receiver<Cmd>, reply_tx: Sender<Reply>, res
                 ALL_TICKS.with(|c| c.set(0));
                 TICK_BUDGET.with(|c| c.set(opts.tick_budget));
                 PREEMPT_AT.with(|c| c.set(opts.preempt_at.unwrap_or(u64::MAX)));
+                PREEMPT_SITE.with(|c| c.set(opts.preempt_site));
                 PREEMPTED.with(|c| c.set(0));
                 let e0 = entropy::stats();
                 if opts.eintr != 0 || opts.short_reads != 0 {
@@ -197,6 +214,7 @@ fn node_main(seed: [u64; 4], cmd_rx: Receiver<Cmd>, reply_tx: Sender<Reply>, res
                 };
                 TICK_BUDGET.with(|c| c.set(0));
                 PREEMPT_AT.with(|c| c.set(u64::MAX));
+                PREEMPT_SITE.with(|c| c.set(None));
                 if reply_tx.send(Reply::Done(out)).is_err() {
                     break;
                 }
@@ -224,6 +242,8 @@ struct Node {
     join: Option<JoinHandle<()>>,
     queue: VecDeque<Pending>,
     parked: Option<(String, Cont)>,
+    /// inside a library call right now (set between hand-over and reply)
+    busy: bool,
 }
 
 #[derive(Clone, Debug)]
@@ -255,6 +275,10 @@ pub struct Cx {
     pub violations: Vec<Violation>,
     pub steps: u64,
     pub preemptions_left: u32,
+    /// while set, a parked call is resumed only when no other node has a queued step: the
+    /// scenario decides what runs inside the window of a forced preemption
+    pub starve_parked: bool,
+    only_node: Option<NodeId>,
     pub preemptions_done: u32,
     pub restarts: u32,
     pub nodes_spawned: u32,
@@ -283,6 +307,8 @@ impl Cx {
             violations: Vec::new(),
             steps: 0,
             preemptions_left: 0,
+            starve_parked: false,
+            only_node: None,
             preemptions_done: 0,
             restarts: 0,
             nodes_spawned: 0,
@@ -367,6 +393,7 @@ impl Cx {
             join: Some(join),
             queue: VecDeque::new(),
             parked: None,
+            busy: false,
         });
         self.nodes_spawned += 1;
         self.log(format!("spawn {name}#0"));
@@ -426,14 +453,71 @@ impl Cx {
         self.nodes[n].queue.push_back(Pending::Step { label: label.to_string(), job, opts, cont });
     }
 
+    /// Free-running burst: the given steps are released on their (idle) nodes AT THE SAME TIME and
+    /// run truly concurrently; the coordinator then collects the outcomes in the order given and
+    /// calls the continuations in that order.  This is the one place where the baton is relaxed:
+    /// it exists to expose state shared between library calls that are in flight together when the
+    /// library itself offers no point at which the scheduler could park a call (no loop with a tick,
+    /// or its own worker threads).  A race-free library yields the same outcomes as the serial
+    /// order, so the event log stays reproducible; a failure found here may not replay.
+    pub fn burst<T: Send + 'static>(
+        &mut self,
+        steps: Vec<(NodeId, Box<dyn FnOnce() -> T + Send>)>,
+        label: &str,
+        cont: impl FnOnce(&mut Cx, Vec<Step<T>>) + 'static,
+    ) {
+        // drain whatever is queued first: a burst starts from idle nodes
+        self.run();
+        let mut nodes_used = Vec::new();
+        for (n, job) in steps {
+            assert!(self.nodes[n].parked.is_none() && self.nodes[n].queue.is_empty());
+            let job: Job = Box::new(move || Box::new(job()) as AnyBox);
+            self.steps += 1;
+            let _ = self.nodes[n].cmd_tx.send(Cmd::Run(job, StepOpts::default()));
+            nodes_used.push(n);
+        }
+        self.count("sched.burst");
+        let mut outs = Vec::new();
+        for n in nodes_used {
+            let who = self.node_name(n);
+            match self.nodes[n].reply_rx.recv() {
+                Ok(Reply::Done(raw)) => {
+                    self.log(format!("burst {who} {label} -> {}", match &raw.result { Ok(_) => "returned".to_string(), Err(c) => format!("{c:?}") }));
+                    let out = match raw.result { Ok(b) => Ok(*b.downcast::<T>().expect("burst result type")), Err(c) => Err(c) };
+                    outs.push(Step { out, ticks: raw.ticks, alloc_bytes: raw.alloc_bytes, alloc_max: raw.alloc_max, ent: raw.ent, preempted: raw.preempted });
+                }
+                Ok(Reply::Yielded(..)) => unreachable!("burst steps are not preempted"),
+                Err(_) => { eprintln!("zksim: node thread {who} vanished (harness error)"); std::process::exit(2); }
+            }
+        }
+        cont(self, outs);
+    }
+
+    /// Run node `n` alone until its current call parks at a forced preemption point (or its
+    /// queue is empty); what runs inside the window is then up to the scenario.
+    pub fn run_until_parked(&mut self, n: NodeId) {
+        self.only_node = Some(n);
+        self.run();
+        self.only_node = None;
+    }
+
     /// Drive the run until no node has anything left to do.
     pub fn run(&mut self) {
         loop {
-            let cands: Vec<NodeId> = (0..self.nodes.len())
-                .filter(|&i| self.nodes[i].parked.is_some() || !self.nodes[i].queue.is_empty())
+            let mut cands: Vec<NodeId> = (0..self.nodes.len())
+                .filter(|&i| !self.nodes[i].busy && (self.nodes[i].parked.is_some() || !self.nodes[i].queue.is_empty()))
                 .collect();
             if cands.is_empty() {
                 break;
+            }
+            if let Some(n) = self.only_node {
+                if self.nodes[n].parked.is_some() || self.nodes[n].queue.is_empty() {
+                    break;
+                }
+                cands = vec![n];
+            }
+            if self.starve_parked && cands.iter().any(|&i| self.nodes[i].parked.is_none()) {
+                cands.retain(|&i| self.nodes[i].parked.is_none());
             }
             let pick = if cands.len() == 1 { 0 } else { self.ch.choose("sched", cands.len() as u64) as usize };
             let n = cands[pick];
@@ -448,7 +532,7 @@ impl Cx {
                     }
                     Pending::Step { label, job, opts, cont } => (label, job, opts, cont),
                 };
-                if opts.preempt_at.is_none() && self.preemptions_left > 0 && self.nodes.len() > 1 {
+                if opts.preempt_at.is_none() && opts.preempt_site.is_none() && self.preemptions_left > 0 && self.nodes.len() > 1 {
                     // PCT-style: a small number of preemption points per run
                     if self.ch.chance("preempt?", 1, 4) {
                         let at = 1 + self.ch.choose("preempt_at", 48);
@@ -459,42 +543,75 @@ impl Cx {
                 let _ = self.nodes[n].cmd_tx.send(Cmd::Run(job, opts));
                 (label, cont)
             };
+            self.nodes[n].busy = true;
             let who = self.node_name(n);
             self.sched_hasher.update(who.as_bytes());
             self.sched_hasher.update(label.as_bytes());
-            match self.nodes[n].reply_rx.recv() {
-                Ok(Reply::Done(raw)) => {
-                    self.log(format!(
-                        "step {who} {label} -> {} ticks={} ent={}B",
-                        match &raw.result {
-                            Ok(_) => "returned".to_string(),
-                            Err(c) => format!("{c:?}"),
-                        },
-                        raw.ticks,
-                        raw.ent.1
-                    ));
-                    if raw.ent.2 > 0 {
-                        self.add("fault.entropy_eintr", raw.ent.2);
+            // The baton is with node n.  If it does not come back for a long (real) time while
+            // another node is parked inside a call, n is taken to be blocked on a lock the parked
+            // call holds (only code that holds a lock across a tick can do that; the pinned
+            // library has none): the parked call is resumed so that both can finish, as any
+            // real scheduler would eventually do.  Never taken on a library without such locks.
+            let reply = loop {
+                match self.nodes[n].reply_rx.recv_timeout(blocked_after()) {
+                    Ok(r) => break r,
+                    Err(std::sync::mpsc::RecvTimeoutError::Timeout) => {
+                        let Some(p) = (0..self.nodes.len()).find(|&i| i != n && self.nodes[i].parked.is_some()) else { continue };
+                        let pw = self.node_name(p);
+                        self.log(format!("{who} {label} has not returned: taken to be blocked on a lock held by parked {pw}; resuming {pw}"));
+                        self.count("sched.blocked_on_lock_held_by_parked_call");
+                        let (plabel, pcont) = self.nodes[p].parked.take().unwrap();
+                        self.nodes[p].busy = true;
+                        let _ = self.nodes[p].resume_tx.send(());
+                        match self.nodes[p].reply_rx.recv() {
+                            Ok(r) => self.handle_reply(p, plabel, pcont, r),
+                            Err(_) => {
+                                eprintln!("zksim: node thread {pw} vanished (harness error)");
+                                std::process::exit(2);
+                            }
+                        }
                     }
-                    if raw.ent.3 > 0 {
-                        self.add("fault.entropy_short_read", raw.ent.3);
+                    Err(_) => {
+                        // node thread died outside catch_unwind: harness error
+                        eprintln!("zksim: node thread {who} vanished (harness error)");
+                        std::process::exit(2);
                     }
-                    cont(self, raw);
                 }
-                Ok(Reply::Yielded(t, site)) => {
-                    self.sched_hasher.update(b"yield");
-                    self.log(format!("preempt {who} {label} at tick {t} in {site}"));
-                    self.count("sched.preemption");
-                    self.count(&format!("probe.preempted_inside.{site}"));
-                    self.preemptions_done += 1;
-                    self.preemptions_left = self.preemptions_left.saturating_sub(1);
-                    self.nodes[n].parked = Some((label, cont));
+            };
+            self.handle_reply(n, label, cont, reply);
+        }
+    }
+
+    fn handle_reply(&mut self, n: NodeId, label: String, cont: Cont, reply: Reply) {
+        let who = self.node_name(n);
+        self.nodes[n].busy = false;
+        match reply {
+            Reply::Done(raw) => {
+                self.log(format!(
+                    "step {who} {label} -> {} ticks={} ent={}B",
+                    match &raw.result {
+                        Ok(_) => "returned".to_string(),
+                        Err(c) => format!("{c:?}"),
+                    },
+                    raw.ticks,
+                    raw.ent.1
+                ));
+                if raw.ent.2 > 0 {
+                    self.add("fault.entropy_eintr", raw.ent.2);
                 }
-                Err(_) => {
-                    // node thread died outside catch_unwind: harness error
-                    eprintln!("zksim: node thread {who} vanished (harness error)");
-                    std::process::exit(2);
+                if raw.ent.3 > 0 {
+                    self.add("fault.entropy_short_read", raw.ent.3);
                 }
+                cont(self, raw);
+            }
+            Reply::Yielded(t, site) => {
+                self.sched_hasher.update(b"yield");
+                self.log(format!("preempt {who} {label} at tick {t} in {site}"));
+                self.count("sched.preemption");
+                self.count(&format!("probe.preempted_inside.{site}"));
+                self.preemptions_done += 1;
+                self.preemptions_left = self.preemptions_left.saturating_sub(1);
+                self.nodes[n].parked = Some((label, cont));
             }
         }
     }
